@@ -379,6 +379,11 @@ func NewGateway() *Gateway {
 		if outer != nil {
 			h = outer(chain)
 		}
+		if r.Header.Get("X-Verif-Panic") != "" {
+			// outermost harness wrapper: the response writer panics on the first body write, the way a broken
+			// writer / handler bug would; net/http recovers the panic and closes the connection
+			w = &panicWriter{ResponseWriter: w}
+		}
 		h.ServeHTTP(w, r)
 	}))
 	g.Server.Start()
@@ -511,3 +516,7 @@ func (g *Gateway) Do(ctx context.Context, r RawRequest) Response {
 }
 
 var _ = apirequest.NewContext
+
+type panicWriter struct{ http.ResponseWriter }
+
+func (p *panicWriter) Write(b []byte) (int, error) { panic(http.ErrAbortHandler) }
